@@ -172,6 +172,25 @@ CHECKS = {
         "units": [U("props/run", "TestRunFiles", (600, 10), (12000, 10), env={"VERIF_ONLY": "C04"})],
         "floors": {"quick": {"consumer-of-file": 500, "late-consumer": 50, "files-deleted": 500, "top-output-names-file": 300, "retained-file": 100, "mode:strict": 300, "mode:rolling": 300, "mode:post": 100}},
     },
+    "C05": {
+        "level": "exploration",
+        "engine": "E1",
+        "needs_bins": [],
+        "technique": "property-based testing (rapid): generated program x schedule x 1-3 interruptions at generated moments; fault injection at the level of the pipestance object (abandon + re-attach, as a restarted mrp does) with a generated fate for every job in flight; differential against the reference model and an undisturbed run of the same program",
+        "level_text": ("Programs of the C01 generator (<= 60 jobs) x schedules x interruptions: the Pipestance object is abandoned between any two harness actions (after a job wrote its "
+                       "completion marker but before mrp refreshed, between refresh and step, right after dynamic forks were expanded, after the final VDR pass, after post-processing); every job in "
+                       "flight is left queued, running with a dead process (pid in _jobinfo as the job monitor records it), dead after writing _outs, finished without mrp having noticed, or alive "
+                       "(it finishes after the restart); the stale _lock is removed and a new Pipestance is attached with the same invocation (Reset + RestartLocalJobs, what mrp does).  Oracle: "
+                       "the re-attach is accepted, the run completes, the final outputs equal the reference model's, no job whose completion was recorded before an interruption is handed to the "
+                       "job manager again, every job still receives the arguments the model predicts, and the outputs record after the final cleanup equals that of an undisturbed run. Exploration."),
+        "level_note": ("The real process level (SIGKILL / SIGTERM of mrp and of job processes at generated system-call ordinals, lock release by the signal handler) needs the E2 engine, which is "
+                       "not built: the claim here is about the re-attach logic, not about signal handling."),
+        "rule": ("rapid program + schedule + interruption points and fates; non-trivial: an interruption fell strictly inside the run (>= 1 job finished, >= 1 in flight); distinct by hash(program, history); "
+                 "classes: fate of in-flight jobs, number of interruptions, during-cleanup / after-cleanup."),
+        "assumptions": _SEM_ASSUME + ["a job that is running records its pid in _jobinfo and the job manager removes _queued_locally when it starts the process, as the local job manager and mrjob do"],
+        "units": [U("props/run", "TestInterrupt", (800, 10), (15000, 10))],
+        "floors": {"quick": {"inside-run": 1500, "fate:queued": 300, "fate:dead-running": 300, "fate:dead-after-outs": 300, "fate:finished-unnoticed": 300, "fate:alive": 300, "fate:during-cleanup": 300, "fate:after-cleanup": 300}},
+    },
     "C07": {
         "level": "exploration",
         "engine": "E1",
